@@ -224,6 +224,13 @@ func (dv *dev) transitiveFacts(root *ssa.Function, at actionTable) fnFacts {
 						}
 						continue
 					}
+					// through a read-only table of the package (a pair table with reset functions)?
+					if ts := roTableTargets(dv.p, cc.Value); len(ts) > 0 {
+						for _, f := range ts {
+							visit(f)
+						}
+						continue
+					}
 					ff.dyn = append(ff.dyn, in)
 				}
 			}
